@@ -24,8 +24,11 @@ pub fn main(args: &[String]) {
 /// `visibility`: a fixed battery of `from m import x` scenarios through the public `TypeChecker::check_with_imports` (replay of the
 /// import-visibility obligation): prints `VIS <scenario> ACCEPTED|REJECTED ..`.
 pub fn visibility_main(_args: &[String]) {
-    let dep_src = "pub def pub_fn() -> int:\n    return 1\n\ndef private_fn() -> int:\n    return 2\n\npub model PubType:\n    x: int\n\nconst PRIVATE_CONST: int = 3\n\npub enum Color:\n    Red\n    Green\n";
-    let scenarios: [(&str, &str, &str); 9] = [
+    let dep_src = "pub def pub_fn() -> int:\n    return 1\n\ndef private_fn() -> int:\n    return 2\n\npub model PubType:\n    x: int\n\nconst PRIVATE_CONST: int = 3\n\npub enum Color:\n    Red\n    Green\n\ntrait Hidden:\n    def hidden(self) -> int: ...\n\npub trait Shown:\n    def shown(self) -> int: ...\n\nmodel HiddenModel:\n    y: int\n";
+    let scenarios: [(&str, &str, &str); 12] = [
+        ("private_trait_use", "lib", "from lib import pub_fn\n\nclass Thing with Hidden:\n    x: int\n\n    def hidden(self) -> int:\n        return 1\n"),
+        ("pub_trait_use", "lib", "from lib import pub_fn\n\nclass Thing with Shown:\n    x: int\n\n    def shown(self) -> int:\n        return 1\n"),
+        ("private_model_use", "lib", "from lib import pub_fn\n\ndef f(m: HiddenModel) -> int:\n    return 1\n"),
         ("pub_fn", "lib", "from lib import pub_fn\n\ndef main() -> None:\n    print(pub_fn())\n"),
         ("private_fn", "lib", "from lib import private_fn\n\ndef main() -> None:\n    pass\n"),
         ("pub_type", "lib", "from lib import PubType\n\ndef main() -> None:\n    pass\n"),
@@ -46,13 +49,8 @@ pub fn visibility_main(_args: &[String]) {
             match tc.check_with_imports(&main, &[(dep_name, &dep)]) {
                 Ok(()) => Ok("ACCEPTED".to_string()),
                 Err(e) => {
-                    let vis: Vec<String> = e.iter().filter(|x| x.message.contains("private or not exported")).map(|x| x.message.clone()).collect();
-                    if vis.is_empty() {
-                        // errors of another kind (e.g. unknown module): not a visibility verdict
-                        Ok(format!("ACCEPTED (other diagnostics: {})", e.iter().map(|x| x.message.clone()).collect::<Vec<_>>().join(" | ")))
-                    } else {
-                        Ok(format!("REJECTED {}: {}", vis.len(), vis.join(" | ")))
-                    }
+                    let vis = e.iter().filter(|x| x.message.contains("private or not exported")).count();
+                    Ok(format!("REJECTED {} visibility={}: {}", e.len(), vis, e.iter().map(|x| x.message.clone()).collect::<Vec<_>>().join(" | ")))
                 }
             }
         });
